@@ -208,6 +208,20 @@ class World:
             return self.lists[s[1]]
         return [self.trees[i] for i in s[1]]
 
+    def _newseq(self):
+        """a DNA string no other row of this history has (rows are re-keyed by migrations: the oracle
+        follows them by content)"""
+        self._seqno = getattr(self, "_seqno", 0) + 1
+        k, out = self._seqno, []
+        for _ in range(8):
+            out.append("ACGT"[k % 4])
+            k //= 4
+        return "".join(out)
+
+    def rows(self):
+        return [[[t.label, m._taxon_sequence_map[t].symbols_as_string()] for t in m._taxon_sequence_map]
+                for m in self.mats]
+
     def _seed(self, refs):
         dp = self.dp
         seed = dp.Node()
@@ -332,12 +346,12 @@ class World:
             dp.TreeArray(taxon_namespace=nss[op[1]]).add_tree(trees[op[2]])
             return ["OUnit"]
         if name == "NewSeq":
-            mats[op[1]].new_sequence(self.taxa()[op[2]], "ACGT")
+            mats[op[1]].new_sequence(self.taxa()[op[2]], self._newseq())
             return ["OUnit"]
         if name == "SetRow":
             k = op[2]
             key = self.taxa()[k[1]] if k[0] == "KeyTaxon" else (self.pool[k[1]] if k[0] == "KeyLabel" else k[1])
-            mats[op[1]][key] = "ACGT"
+            mats[op[1]][key] = self._newseq()
             return ["OUnit"]
         if name == "MigrateMat":
             mats[op[1]].migrate_taxon_namespace(nss[op[2]], unify_taxa_by_label=op[3])
@@ -382,7 +396,7 @@ class World:
             dss[op[1]].read(data=text, schema=schema, **kw)
             return ["OUnit"]
         if name == "DsReadFasta":
-            text = "".join(">%s\nACGT\n" % self.pool[i] for i in op[3])
+            text = "".join(">%s\n%s\n" % (self.pool[i], self._newseq()) for i in op[3])
             kw = {} if op[2] is None else {"taxon_namespace": nss[op[2]]}
             dss[op[1]].read(data=text, schema="fasta", data_type="dna", **kw)
             return ["OUnit"]
@@ -471,6 +485,8 @@ def gen_case(rng, maxlen, hazard=0.12):
         emit(["NewMat", rng.randrange(nns)])
     if R() < 0.6:
         emit(["NewDs"])
+    if R() < 0.3:
+        _shared_source_scenario(rng, w, emit)
 
     target = len(ops) + rng.randint(5, maxlen)
     guard = 0
@@ -484,8 +500,74 @@ def gen_case(rng, maxlen, hazard=0.12):
     return {"pool": pool, "ops": ops}
 
 
+def _shared_source_scenario(rng, w, emit):
+    """a tree list AND a matrix over one source namespace (mostly case-sensitive, with case-variant labels),
+    both components of one data set: unify_taxon_namespaces migrates the lists first and hands the memo they
+    filled to the matrices"""
+    R = rng.random
+    pool = w.pool
+    groups = {}
+    for i, s in enumerate(pool):
+        groups.setdefault(s.lower(), []).append(i)
+    variants = [g for g in groups.values() if len(g) >= 2]
+    emit(["NewNs", R() < 0.85])
+    n = len(w.nss) - 1
+    labs = list(rng.choice(variants))[:rng.choice([2, 2, 3])]
+    others = [i for i in range(len(pool)) if i not in labs]
+    rng.shuffle(others)
+    labs += others[:rng.randint(0, 2)]
+    rng.shuffle(labs)
+    tids = []
+    for l in labs:
+        emit(["NewTaxon", n, l])
+        tids.append(len(w.taxa()) - 1)
+    emit(["NewList", n])
+    l = len(w.lists) - 1
+    for _ in range(rng.randint(1, 2)):
+        sub = [t for t in tids if R() < 0.85] or tids[:1]
+        rng.shuffle(sub)
+        if R() < 0.5:
+            emit(["NewTreeIn", l, None, sub])
+        else:
+            emit(["MkTree", n, sub])
+            emit(["Append", l, len(w.trees) - 1, ["SMigrate", True]])
+    emit(["NewMat", n])
+    m = len(w.mats) - 1
+    rows = [t for t in tids if R() < 0.9] or tids[:1]
+    rng.shuffle(rows)
+    for t in rows:
+        emit(["NewSeq", m, t])
+    emit(["NewDs"])
+    d = len(w.dss) - 1
+    comps = [["ObjList", l], ["ObjMat", m]]
+    rng.shuffle(comps)
+    for c in comps:
+        emit(["DsAdd", d, c, R() < 0.3])
+    if R() < 0.4:
+        # straight away, in one of the ways the memo can be shared / not shared
+        x = R()
+        if x < 0.6:
+            tgt = None if R() < 0.6 else rng.randrange(len(w.nss))
+            emit(["Unify", d, tgt, R() < 0.7])
+        elif x < 0.8:
+            emit(["NewNs", False])
+            t = len(w.nss) - 1
+            first, second = (["MigrateList", l, t, True], ["MigrateMat", m, t, True])
+            if R() < 0.5:
+                first, second = second, first
+            emit(first)
+            emit(second)
+        else:
+            emit(["NewNs", False])
+            emit(["Unify", d, len(w.nss) - 1, True])
+
+
 def _pick(rng, w, hazard):
     R = rng.random
+    if w.dss and R() < 0.05:
+        full = [i for i, ds in enumerate(w.dss) if len(ds.tree_lists) and len(ds.char_matrices)]
+        if full:
+            return ["Unify", rng.choice(full), None if R() < 0.6 else rng.randrange(len(w.nss)), R() < 0.7]
     pool = w.pool
     nN, nT, nL, nM, nD = len(w.nss), len(w.trees), len(w.lists), len(w.mats), len(w.dss)
     L = lambda: rng.randrange(len(pool))
@@ -735,7 +817,7 @@ def observe(case):
     for op in case["ops"]:
         out = w.step(op)
         d = w.dump()
-        res.append({"out": out, "dump": d, "naive": w.naive(),
+        res.append({"out": out, "dump": d, "naive": w.naive(), "rows": w.rows(),
                     "removed": [[w._ix["tree"][id(t)], w._ix["ns"][id(n)], t.taxon_namespace is n]
                                 for t, n in w.removed]})
     return res
@@ -752,7 +834,9 @@ def _classify(case, step, op, viol, prev_dump, dump, out):
     """a stable, narrow key for a new violation of the closure property"""
     kind = viol[0]
     name = op[0]
-    if out == ["ORecon"] and kind == "matrix-row":
+    if out == ["ORecon"] and name in ("MigrateMat", "ReconstructMat", "Unify"):
+        # the refused reconstruction left the matrix (and, inside unify_taxon_namespaces, the data set whose
+        # lists were already moved) half-way
         return "matrix-half-migrated-after-reconstruction-error"
     if kind in ("ds-list-ns", "ds-matrix-ns"):
         if name in ("DsAdd", "Attach"):
@@ -782,8 +866,16 @@ def oracle(case, obs):
     prev = set()
     prev_dump = None
     n_removed = 0
+    prev_rows = []
     for step, (op, o) in enumerate(zip(case["ops"], obs)):
         dump = o["dump"]
+        # no operation of these histories deletes a sequence: every row present before the step is still
+        # there (same cells, a label that differs at most in case), whatever taxon it is keyed by now;
+        # only matrix[key] = values may replace the cells of one row
+        lost = _sequences_lost(op, prev_rows, o["rows"])
+        if lost:
+            return ("after step %d %s (outcome %s): %s" % (step, op, o["out"], lost), "matrix-sequence-lost:" + op[0])
+        prev_rows = o["rows"]
         cur = set(json.dumps(v) for v in o["naive"])
         new = [json.loads(x) for x in sorted(cur - prev)]
         if new:
@@ -804,6 +896,30 @@ def oracle(case, obs):
                 return ("after step %d %s: %s" % (step, op, u[0]), u[1] + ":" + op[0])
         prev = cur
         prev_dump = dump
+    return None
+
+
+def _sequences_lost(op, before, after):
+    for i, rows_b in enumerate(before):
+        rows_a = after[i] if i < len(after) else []
+        left = [list(r) for r in rows_a]
+        missing = []
+        for lab, seq in rows_b:
+            hit = None
+            for r in left:
+                if r[1] == seq:
+                    hit = r
+                    break
+            if hit is None:
+                missing.append([lab, seq])
+                continue
+            left.remove(hit)
+            if hit[0].lower() != lab.lower():
+                return "matrix %d: the sequence of %r is now filed under %r" % (i, lab, hit[0])
+        allowed = 1 if (op[0] == "SetRow" and op[1] == i) else 0
+        if len(missing) > allowed or len(rows_a) < len(rows_b):
+            return ("matrix %d had %d sequences %s before the step and has %d after it: lost %s without an exception that says so"
+                    % (i, len(rows_b), [r[0] for r in rows_b], len(rows_a), missing))
     return None
 
 
@@ -1038,6 +1154,17 @@ WITNESSES = [
      ["Unify", 0, None, True], "matrix-half-migrated-after-reconstruction-error"),
 ]
 
+# the tree list (tree 2 carries A and a of the case-sensitive ns2) and the matrix (rows A, a) of one data set:
+# the list is migrated first and fills the memo, the matrix meets both rows through the memo
+SHARED_MEMO = [
+    ("unify_shared_memo_collision_l",
+     [["Append", 2, 2, M1], ["NewMat", 2], ["NewSeq", 0, 4], ["NewSeq", 0, 5], ["NewDs"],
+      ["DsAdd", 0, ["ObjList", 2], False], ["DsAdd", 0, ["ObjMat", 0], False]], ["Unify", 0, None, True]),
+    ("unify_shared_memo_collision_given_l",
+     [["Append", 2, 2, M1], ["NewMat", 2], ["NewSeq", 0, 5], ["NewSeq", 0, 4], ["NewDs"],
+      ["DsAdd", 0, ["ObjMat", 0], False], ["DsAdd", 0, ["ObjList", 2], False]], ["Unify", 0, 0, False]),
+]
+
 EX_HISTORY = [
     ["Append", 0, 1, M1], ["Append", 0, 2, ["SAdd"]], ["Insert", 0, -1, 3, ["SMigrate", False]],
     ["ReadList", 1, "Newick", False, None, [[0, 4], [5, 1]], 5], ["ReadList", 2, "Nexus", True, None, [[0, 3, 1]], 2],
@@ -1078,6 +1205,17 @@ def check_witnesses(ctx):
         if not good:
             ctx.notes.append("witness %s of Proofs/C11Examples.v differs from the harness' copy" % name)
         ok &= good
+    for name, prefix, last in SHARED_MEMO:
+        m = re.search(r"Lemma %s :\s*let st := ex_state (\[.*?\]) in\s*let o := (.*?) in" % name, src, re.S)
+        good = bool(m) and _norm(m.group(1)) == ops_text(prefix) and _norm(m.group(2)) == _norm(c_op(last))
+        if not good:
+            ctx.notes.append("witness %s of Proofs/C11Examples.v differs from the harness' copy" % name)
+        ok &= good
+        case = {"pool": P6, "ops": EX_BASE + prefix + [last]}
+        obs = observe(case)
+        ctx.obligation("shared-memo collision %s: the implementation refuses (TaxonNamespaceReconstructionError) and keeps every row" % name,
+                       obs[-1]["out"] == ["ORecon"] and len(obs[-1]["rows"][0]) == len(obs[-2]["rows"][0]) == 2
+                       and _sequences_lost(last, obs[-2]["rows"], obs[-1]["rows"]) is None)
     ctx.obligation("witness histories of Proofs/C11Examples.v = the histories replayed on the library", ok)
     # replay: every refutation witness must fail on the implementation exactly at its last step
     for name, prefix, last, key in WITNESSES:
@@ -1100,6 +1238,8 @@ def fixed_cases():
     H = lambda *ops: {"pool": P, "ops": base + [list(o) for o in ops]}
     yield {"pool": P, "ops": EX_BASE + EX_HISTORY}
     for _name, prefix, last, _key in WITNESSES:
+        yield {"pool": P, "ops": EX_BASE + prefix + [last]}
+    for name, prefix, last in SHARED_MEMO:
         yield {"pool": P, "ops": EX_BASE + prefix + [last]}
     yield H(["Append", 0, 1, ["SMigrate", True]], ["Append", 0, 2, ["SMigrate", True]], ["Append", 1, 3, ["SMigrate", True]])
     yield H(["Append", 2, 0, ["SMigrate", True]], ["Append", 2, 1, ["SAdd"]], ["Pop", 2, -1], ["Pop", 2, 0], ["Pop", 2, 0])
@@ -1176,6 +1316,7 @@ def run(tier, seed, replay=None):
         "CharacterMatrix / DataSet / Tree; tied to the source by this correspondence run only",
         "all namespaces are mutable; labels are ids into a finite pool and never re-assigned; str.lower is an "
         "uninterpreted function in the theorems",
+        "matrix cells are not modelled: the oracle follows every sequence by its (unique) content across re-keying",
         "reads: the readers are represented by their label look-up (symbol mapper: last matching member, FASTA: "
         "require_taxon) on Newick / TREES-only NEXUS / FASTA sources without numeric labels",
         "TreeList.extend(self) / `l += l` do not terminate in the library; modelled as the outcome Hang and never executed",
@@ -1210,6 +1351,6 @@ def run(tier, seed, replay=None):
                       rule="operation histories generated online against the live library (set-up of 2-3 namespaces with "
                            "overlapping / disjoint / case-variant labels, trees, lists, a matrix, a data set; then 5..16 "
                            "(quick) / 5..34 (thorough) further operations, 8% / 5% of the choices deliberately hazardous); "
-                           "plus 16 fixed histories (the witnesses of the `_refuted` theorems, the non-vacuity history, one history per group of call sites) for the call sites named in the property; thorough adds every history of length <= 2 over a 53-op alphabet on a prepared state (cut at the first violating step); non-trivial = >= 6 steps, >= 2 "
+                           "plus 18 fixed histories (the witnesses of the `_refuted` theorems, the non-vacuity history, one history per group of call sites) for the call sites named in the property; thorough adds every history of length <= 2 over a 53-op alphabet on a prepared state (cut at the first violating step); non-trivial = >= 6 steps, >= 2 "
                            "namespaces and at least one step that re-mapped or cloned a tree / matrix into a namespace; "
                            "distinct by full case content")
